@@ -1,15 +1,34 @@
 (* Property C08 -- undoing decisions restores the network exactly (SAT side + the assembly over an abstract theory).
-   Model: smt/SatCore.v.  The theory undo laws are NAMED hypotheses on an observation [th_obs] of the theory state
-   (bounds / distances / domains), to be discharged by the LRA (c09-c11) and DL (c10-c12) models:
+   Model: smt/SatCore.v.  What is asked of the attached theory is a NAMED hypothesis on an observation [th_obs] of its state,
+   in two forms:
+   (pointwise, C08_pop_after_assume_restores_partial)
      th_pop_push      : th_obs (th_pop (th_push ts)) = th_obs ts
      th_pop_propagate : th_obs (th_pop (fst (fst (th_propagate ts a dl p)))) = th_obs (th_pop ts)
      th_pop_check     : th_obs (th_pop (fst (fst (th_check ts a dl)))) = th_obs (th_pop ts)
-   Until they are plugged in the assembled claim is labelled _partial; its propositional instance is complete.
-   The history-independence of the real mixed network (sat_core + lra + idl + rdl + ov) is checked on the
-   implementation by tools/checks/c08.py (harness/h_net.cpp). *)
+   (trace form under an invariant, C08_pop_after_assume_restores_trace_form_partial - implied by the pointwise form)
+     th_undo : th_inv ts0 -> th_reach thp thc (th_push ts0) ts -> th_obs (th_pop ts) = th_obs ts0
+     where th_reach = any sequence of propagate(p) / check() calls that record no lemma and report no conflict, and th_inv only
+     has to hold initially and be preserved by propagate / check / push / pop (proofs/SatCoreTh_Proofs.v: the theory state of
+     the model only ever changes through these four functions).
+   The trace form is literally the shape of the undo theorems proved for the theory models:
+     IDL / RDL  th_obs = the WHOLE theory state (distance matrix, predecessors, enforcing constraints, layers):
+                C10_idl_pop_restores / C10_rdl_pop_restores: do_pop (run (do_push s) os) = s (os = enqueue / propagate-one / observers,
+                under hinv s, no conflict pending, empty queue, wf_run, fault = 0);
+     LRA        th_obs = the bound vector c_bounds (values AND reasons; hence lb / ub / bounds(lin)); NOT the simplex point `vals` nor
+                the tableau, which a pop does not restore (they remain a solution of the rows: C09_pop_keeps_values_on_rows):
+                C09_pop_restores_bounds: cb (run (EPush :: es ++ [EPop]) s) i = cb s i (reach s, balanced es, ok_run);
+     OV         th_obs = the whole object-variable state (C14_assume_pop: ov_pop h' = h); the domains value(v) are a function of
+                the literal values, which [restored] already gives back (r_assigns).
+   NOT discharged here (hence _partial): each of those models embeds its own fragment of the SAT state (assignment, queue,
+   trail) and its own event vocabulary; plugging them into the Section parameters of smt/SatCore.v needs, per theory, an
+   adapter whose embedded assignment is proved equal to the one sat_core passes (the theories read sat->value of literals that
+   are assigned but still queued, so the adapter would need the trail / queue, which the theory interface of the model does
+   not pass) - a simulation proof per theory that has not been done.  The propositional instance is complete, and the
+   history-independence of the real mixed network (sat_core + lra + idl + rdl + ov) is checked on the implementation by
+   tools/checks/c08.py (harness/h_net.cpp). *)
 From Coq Require Import List Arith Bool ZArith Permutation Sorted.
 From ORatio Require Import smt.SatCoreBase smt.SatCoreSpec smt.SatCore
-  proofs.SatCoreInv_Proofs proofs.SatCoreRun_Proofs proofs.SatCoreThm_Proofs proofs.SatCoreUndo_Proofs proofs.SatCoreWlThm_Proofs.
+  proofs.SatCoreInv_Proofs proofs.SatCoreRun_Proofs proofs.SatCoreThm_Proofs proofs.SatCoreTh_Proofs proofs.SatCoreUndo_Proofs proofs.SatCoreWlThm_Proofs.
 Import ListNotations.
 
 (* the assignment vector is a function of the trail alone, after ANY history *)
@@ -54,6 +73,31 @@ Theorem C08_pop_after_assume_restores_partial :
   restored O th_obs (run sort thp thc thpush thpop FUEL ops (init ts)) (pop thpop s').
 Proof. exact @c08_pop_assume. Qed.
 Print Assumptions C08_pop_after_assume_restores_partial.
+
+(* trace form: one law, relative to an invariant of the theory state that is carried along the history *)
+Theorem C08_pop_after_assume_restores_trace_form_partial :
+  forall (TS : Type) (T : asg -> Prop) sort thp thc (thpush thpop : TS -> TS) FUEL,
+  sort_contract sort -> theory_contract T thp thc ->
+  forall (O : Type) (th_obs : TS -> O) (th_inv : TS -> Prop),
+  (forall ts a dl p, th_inv ts -> th_inv (fst (fst (thp ts a dl p)))) ->
+  (forall ts a dl, th_inv ts -> th_inv (fst (fst (thc ts a dl)))) ->
+  (forall ts, th_inv ts -> th_inv (thpush ts)) -> (forall ts, th_inv ts -> th_inv (thpop ts)) ->
+  (forall ts0 ts, th_inv ts0 -> th_reach thp thc (thpush ts0) ts -> th_obs (thpop ts) = th_obs ts0) ->
+  forall ops ts, th_inv ts -> run_ok sort thp thc thpush thpop FUEL ops (init ts) = true ->
+  ub (run sort thp thc thpush thpop FUEL ops (init ts)) = false ->
+  forall p s', pre (run sort thp thc thpush thpop FUEL ops (init ts)) (OAssume p) = true ->
+  assume sort thp thc thpush thpop FUEL (run sort thp thc thpush thpop FUEL ops (init ts)) p = (s', RTrue) ->
+  log s' = log (run sort thp thc thpush thpop FUEL ops (init ts)) ->
+  restored O th_obs (run sort thp thc thpush thpop FUEL ops (init ts)) (pop thpop s').
+Proof. exact @c08_pop_assume_inv. Qed.
+Print Assumptions C08_pop_after_assume_restores_trace_form_partial.
+
+(* the theory state after any history is reachable from the initial one through the four theory functions only *)
+Theorem C08_theory_state_changes_only_through_the_theory :
+  forall (TS : Type) sort thp thc (thpush thpop : TS -> TS) FUEL ops (s : @state TS),
+  th_full thp thc thpush thpop (thst s) (thst (run sort thp thc thpush thpop FUEL ops s)).
+Proof. exact @run_th. Qed.
+Print Assumptions C08_theory_state_changes_only_through_the_theory.
 
 (* the propositional instance (what is extracted and compared with the C++) needs no hypothesis, not even `ub = false`
    (discharged by C07_no_undefined_behaviour_propositional) *)
